@@ -147,6 +147,24 @@ def r_serret_body(body):
     return "".join(out), ([("R-serret", "Ok(serializer)", "Ok(())  x%d" % n)] if n else [])
 
 
+
+def r_seek(body):
+    """the four std::io::Cursor idioms of the decoders -> four prelude methods whose contracts state the Cursor semantics (R-seek)"""
+    log = []
+    rules = [
+        (r"(\w+)\s*\.as_mut_ref\(\)\s*\.seek\(SeekFrom::Current\(0\)\)\s*\.unwrap\(\)", r"\1.pos_()"),
+        (r"(\w+)\s*\.as_mut_ref\(\)\s*\.seek\(SeekFrom::Start\(([^()]+)\)\)\s*\.unwrap\(\)", r"\1.set_pos(\2)"),
+        (r"(\w+)\s*\.as_mut_ref\(\)\s*\.fill_buf\(\)\s*\.unwrap\(\)\s*\[\s*\.\.\s*([^\]]+)\]\s*\.to_vec\(\)", r"\1.peek_vec(\2)"),
+        (r"(\w+)\s*\.as_mut_ref\(\)\s*\.consume\(([^()]+)\)", r"\1.skip_raw(\2)"),
+    ]
+    for (rx, rep) in rules:
+        n = len(re.findall(rx, body))
+        if n:
+            body = re.sub(rx, rep, body)
+            log.append(("R-seek", rx[:60], "%s  x%d" % (rep, n)))
+    return body, log
+
+
 def r_subst(text, rules, where):
     """Anchored textual rewrites listed in unit.toml: each {rule, from, to}; `from` is matched after whitespace
     normalisation and must occur exactly `count` (default 1) times, otherwise the anchor is lost (UNDECIDED).
@@ -616,6 +634,14 @@ def emit_fn(f, udir, unit_props, recs, log_global):
     if "serret" in rewrites:
         sig, l = r_serret_sig(sig)
         log += l
+    if "deret" in rewrites:
+        s0 = sig
+        sig = re.sub(r"<\s*R\s*:\s*BufRead\s*\+\s*Seek\s*(,\s*)?", lambda m: "<" if m.group(1) else "<", sig)
+        sig = sig.replace("<>", "")
+        sig = re.sub(r"Deserializer\s*<\s*R\s*>", "Deserializer", sig)
+        if sig == s0:
+            raise Unsupported("R-deret: signature shape not recognised: " + norm_ws(s0))
+        log.append(("R-deret", norm_ws(s0)[:160], norm_ws(sig)[:160]))
     for r in f.get("sig_subst", []):
         sig, l = r_subst(sig, [r], where)
         log += l
@@ -632,6 +658,9 @@ def emit_fn(f, udir, unit_props, recs, log_global):
         log += l
         if "serret" in rewrites:
             body, l = r_serret_body(body)
+            log += l
+        if "seek" in rewrites:
+            body, l = r_seek(body)
             log += l
         if "extend" in rewrites:
             body, l = r_extend(body)
